@@ -16,6 +16,7 @@ import (
 	"io"
 	"math/bits"
 	"reflect"
+	"time"
 
 	"cuelabs.dev/go/oci/ociregistry"
 	"verifharness/internal/evid"
@@ -447,6 +448,19 @@ func main() {
 		rec.calls, rec.newErr = rec.calls[:0], rec.newErr[:0]
 		ctxVal := salt
 		ctx := context.WithValue(context.Background(), ctxKey{}, ctxVal)
+		switch (salt / 5) % 4 {
+		case 1:
+			// the caller has already given up: the table neither looks at nor reports that
+			c2, cancel := context.WithCancel(ctx)
+			cancel()
+			ctx = c2
+			run.Count("calls_with_cancelled_context", 1)
+		case 3:
+			c2, cancel := context.WithDeadline(ctx, time.Unix(1, 0))
+			defer cancel()
+			ctx = c2
+			run.Count("calls_with_expired_context", 1)
+		}
 		set := mask&(1<<m) != 0
 		variant := int((mask*2654435761+uint32(m)*40503+uint32(salt)*97)>>9) % len(argVariants)
 		run.Count("args:"+argVariants[variant], 1)
